@@ -249,6 +249,10 @@ fn expected_complete(ctx: &RunCtx, only_free: bool) -> bool {
     for (i, def) in ctx.prog.ops.iter().enumerate() {
         let rec = &ctx.recs[i];
         if only_free && ctx.prog.held_objs.contains(&def.obj) { continue; }
+        if def.kind == Kind::PipeItem && ctx.prog.panics && def.body.contains(&Step::Panic) && rec.outcome.load(ORD) != 5 && !only_free {
+            // (panic scenarios) the item whose processing is going to panic: the phase is not over before it has
+            return false;
+        }
         if def.kind == Kind::PipeItem && !rec.accepted.load(ORD) {
             // an item that was pushed into the input of a pipe whose target stays alive and whose output is still wanted has to be
             // taken out of the input and processed without anything else having to happen
@@ -332,7 +336,7 @@ pub fn run_program(prog: Program, opts: &Opts, plan: noise::Plan) -> RunResult {
             let uses = acts.iter().any(|a| match a {
                 TAct::Op(o) | TAct::Join(o) | TAct::DropHeld(o) => ctx.prog.ops[*o].obj == m,
                 TAct::ReleaseMortal | TAct::PanicRelease => true,
-                TAct::PipeCreate(p) | TAct::Consume(p, _) | TAct::DropStream(p) => ctx.prog.pipes[*p].obj == m,
+                TAct::PipeCreate(p) | TAct::Consume(p, _) | TAct::DropStream(p) | TAct::StashStream(p) => ctx.prog.pipes[*p].obj == m,
                 _ => false });
             if uses { mortal_clones[t] = Some(Arc::clone(&owner)); }
         }
